@@ -30,6 +30,8 @@
 #include <setjmp.h>
 #include <time.h>
 #include <unistd.h>
+#include <sys/mman.h>
+#undef MAP_FAILED /* mir-code-alloc.h defines its own */
 #include "mir.h"
 #include "mir-gen.h"
 #include "c2mir/c2mir.h"
@@ -39,14 +41,14 @@
 #define MAXI 64
 
 enum { PH_INIT, PH_C2M_INIT, PH_C2M_COMPILE, PH_C2M_FINISH, PH_SCAN, PH_OUTPUT, PH_WRITE, PH_MIR2C,
-       PH_LOAD, PH_GEN_INIT, PH_LINK, PH_RUN, PH_GEN_FINISH, PH_FINISH, NPH };
+       PH_LOAD, PH_GEN_INIT, PH_LINK, PH_RUN, PH_PATCH, PH_GEN_FINISH, PH_FINISH, NPH };
 static const char *const ph_name[NPH]
   = {"MIR_init", "c2mir_init", "c2mir_compile", "c2mir_finish", "MIR_scan_string", "MIR_output",
      "MIR_write", "MIR_module2c", "MIR_load_module", "MIR_gen_init", "MIR_link", "run",
-     "MIR_gen_finish", "MIR_finish"};
+     "code_patch", "MIR_gen_finish", "MIR_finish"};
 
 typedef struct {
-  int kind, iface, opt, c2m_finish_early, nregs;
+  int kind, iface, opt, c2m_finish_early, nregs, hooks;
   long a, b, n;
 } spec_t;
 
@@ -69,6 +71,119 @@ static spec_t specs[MAXT][MAXI];
 static res_t res_seq[MAXT][MAXI], res_thr[MAXT][MAXI];
 static ev_t evs[MAXT][MAXI][NPH];
 static pthread_barrier_t start_barrier;
+
+/* ---------------------------------------------------------------- recording code allocators
+   Every context created with hooks=1 gets its own MIR_code_alloc_t (MIR_init2).  All of them hand out
+   pages of ONE arena by bump allocation, so the mappings of different contexts are ADJACENT: a
+   protection window that overshoots by a page lands in a page of another context (or in a page
+   nobody mapped).  Invariant monitored here and, from the printed event sequence, by the Lean
+   monitor (mirdrv_c18 `pages`): every mem_protect / mem_unmap request issued on behalf of a context
+   covers only pages that context mapped.  A violating request is applied only to its own pages
+   (so the harness survives and reports).  Ownership is kept with relaxed atomics: no
+   happens-before edges are added between the threads. */
+#define ARENA_PAGES (1u << 16)
+static uint64_t splitmix (uint64_t *s);
+static uint8_t *arena;
+static size_t psz;
+static uint32_t arena_next;           /* bump pointer in pages */
+static int32_t page_owner[ARENA_PAGES]; /* 0: never mapped, id: mapped by context id, -id: unmapped by it */
+
+typedef struct {
+  char kind; /* m map, u unmap, w protect, p patch call announced by the harness */
+  char sub;  /* protect: W (W|X) / R (R|X); patch: c change_code, r update_code */
+  int bad;
+  uint32_t a, b;
+} caev_t;
+
+typedef struct {
+  int id, tid, it, thr, nviol;
+  struct MIR_code_alloc ca;
+  caev_t *ev;
+  size_t nev, cap;
+} carec_t;
+static carec_t carecs[2][MAXT][MAXI];
+
+static void ca_log (carec_t *cr, char kind, char sub, uint32_t a, uint32_t b, int bad) {
+  if (cr->nev == cr->cap) {
+    cr->cap = cr->cap ? cr->cap * 2 : 256;
+    cr->ev = realloc (cr->ev, cr->cap * sizeof (caev_t));
+  }
+  cr->ev[cr->nev++] = (caev_t){kind, sub, bad, a, b};
+}
+
+static int own_prefix (carec_t *cr, uint32_t lo, uint32_t n) { /* # leading pages owned by cr */
+  uint32_t k = 0;
+  while (k < n && lo + k < ARENA_PAGES && __atomic_load_n (&page_owner[lo + k], __ATOMIC_RELAXED) == cr->id) k++;
+  return (int) k;
+}
+
+static void *rec_map (size_t len, void *ud) {
+  carec_t *cr = ud;
+  uint32_t n = (uint32_t) ((len + psz - 1) / psz);
+  uint32_t lo = __atomic_fetch_add (&arena_next, n, __ATOMIC_RELAXED);
+  if (lo + n > ARENA_PAGES) return NULL;
+  for (uint32_t k = 0; k < n; k++) __atomic_store_n (&page_owner[lo + k], cr->id, __ATOMIC_RELAXED);
+  ca_log (cr, 'm', '-', lo, n, 0);
+  return arena + (size_t) lo * psz;
+}
+
+static int rec_unmap (void *addr, size_t len, void *ud) {
+  carec_t *cr = ud;
+  uint32_t lo = (uint32_t) (((uint8_t *) addr - arena) / psz);
+  uint32_t n = (uint32_t) ((((uint8_t *) addr - arena) + len - 1) / psz) - lo + 1;
+  int own = own_prefix (cr, lo, n), bad = own != (int) n;
+  if (bad) cr->nviol++;
+  ca_log (cr, 'u', '-', lo, n, bad);
+  for (int k = 0; k < own; k++) __atomic_store_n (&page_owner[lo + k], -cr->id, __ATOMIC_RELAXED);
+  return 0; /* the pages stay mapped and are never handed out again */
+}
+
+static int rec_protect (void *addr, size_t len, MIR_mem_protect_t prot, void *ud) {
+  carec_t *cr = ud;
+  size_t off = (size_t) ((uint8_t *) addr - arena);
+  uint32_t lo = (uint32_t) (off / psz);
+  uint32_t n = len == 0 ? 1 : (uint32_t) ((off + len - 1) / psz) - lo + 1; /* what mprotect really covers */
+  int own = own_prefix (cr, lo, n), bad = own != (int) n;
+  if (bad) cr->nviol++;
+  ca_log (cr, 'w', prot == PROT_WRITE_EXEC ? 'W' : 'R', lo, n, bad);
+  if (own == 0) return 0;
+  return mprotect (arena + (size_t) lo * psz, (size_t) own * psz,
+                   prot == PROT_WRITE_EXEC ? (PROT_READ | PROT_WRITE | PROT_EXEC) : (PROT_READ | PROT_EXEC));
+}
+
+/* patches whose last byte is the last byte of a page (and a few that are not) */
+static void patch_phase (MIR_context_t ctx, carec_t *cr, uint64_t *rs) {
+  static __thread uint8_t pad[4096];
+  uint64_t val = 0x1122334455667788ull ^ *rs;
+  memset (pad, 0x90, sizeof (pad));
+  for (int round = 0; round < 2; round++) {
+    size_t S = 16 * (1 + (size_t) (splitmix (rs) % 4));
+    uint8_t *p = _MIR_get_new_code_addr (ctx, S), *slot;
+    if (p == NULL) return;
+    size_t rest = psz - (size_t) p % psz;
+    if (rest < S) S = rest;
+    if (rest > S && rest - S <= sizeof (pad)) _MIR_publish_code (ctx, pad, rest - S);
+    slot = _MIR_publish_code (ctx, pad, S);
+    if (slot == NULL || ((size_t) slot + S) % psz != 0) continue; /* not on a boundary: skip the round */
+#define ANNOUNCE(sub, ad, ln) ca_log (cr, 'p', sub, (uint32_t) ((uint8_t *) (ad) - arena), (uint32_t) (ln), 0)
+    ANNOUNCE ('c', slot + S - 8, 8);
+    _MIR_change_code (ctx, slot + S - 8, (uint8_t *) &val, 8); /* ends on the page end */
+    ANNOUNCE ('c', slot + S - 1, 1);
+    _MIR_change_code (ctx, slot + S - 1, pad, 1);
+    ANNOUNCE ('c', slot, S);
+    _MIR_change_code (ctx, slot, pad, S);
+    ANNOUNCE ('r', slot, S - 8 + sizeof (void *));
+    _MIR_update_code (ctx, slot, 1, (size_t) (S - 8), (void *) val); /* reloc in the last 8 bytes */
+    {
+      MIR_code_reloc_t rl[2] = {{0, (void *) val}, {S - 8, (void *) (val + 1)}};
+      ANNOUNCE ('r', slot, S - 8 + sizeof (void *));
+      _MIR_update_code_arr (ctx, slot, 2, rl);
+    }
+    size_t o = (size_t) (splitmix (rs) % (S - 8)), l = 1 + (size_t) (splitmix (rs) % 7); /* interior */
+    ANNOUNCE ('c', slot + o, l);
+    _MIR_change_code (ctx, slot + o, pad, l);
+  }
+}
 
 static uint64_t splitmix (uint64_t *s) {
   uint64_t z = (*s += 0x9E3779B97F4A7C15ull);
@@ -239,8 +354,12 @@ static void run_one (const spec_t *sp, int tid, int it, res_t *res, ev_t *ev, in
     if (msg != NULL) fclose (msg);
     return;
   }
+  carec_t *cr = &carecs[shift ? 1 : 0][tid][it];
+  cr->id = 1 + (shift ? MAXT * MAXI : 0) + tid * MAXI + it;
+  cr->tid = tid, cr->it = it, cr->thr = shift, cr->nviol = 0, cr->nev = 0;
+  cr->ca = (struct MIR_code_alloc){rec_map, rec_unmap, rec_protect, cr};
   PHASE (PH_INIT);
-  ctx = MIR_init ();
+  ctx = sp->hooks ? MIR_init2 (NULL, &cr->ca) : MIR_init ();
   MIR_set_error_func (ctx, err_func);
   if (m2c_mode == 2) { /* the mir2c-only workload: many translations to widen the window */
     PHASE (PH_SCAN);
@@ -338,6 +457,10 @@ static void run_one (const spec_t *sp, int tid, int it, res_t *res, ev_t *ev, in
     res->scan = ((long (*) (long)) g_item->addr) (sp->n);
     res->scan ^= ((long (*) (long)) g_item->addr) (sp->n + 1) * 3;
   }
+  if (sp->hooks) {
+    PHASE (PH_PATCH);
+    patch_phase (ctx, cr, &rs);
+  }
   if (sp->iface != 0) {
     PHASE (PH_GEN_FINISH);
     MIR_gen_finish (ctx);
@@ -402,10 +525,18 @@ int main (int argc, char **argv) {
       sp->a = 2 + (long) (splitmix (&s) % 97);
       sp->b = 3 + (long) (splitmix (&s) % 89);
       sp->n = 5 + (long) (splitmix (&s) % 40);
+      sp->hooks = (splitmix (&s) % 4) != 0; /* 3 of 4 contexts use a recording code allocator */
     }
   printf ("CFG n=%d iters=%d seed=%llu mode=%d kinds=0x%x m2c=%d\n", nthreads, iters,
           (unsigned long long) seed, mode, kinds, m2c_mode);
   fflush (stdout);
+  psz = (size_t) sysconf (_SC_PAGE_SIZE);
+  arena = mmap (NULL, (size_t) ARENA_PAGES * psz, PROT_READ | PROT_EXEC, MAP_PRIVATE | MAP_ANONYMOUS | MAP_NORESERVE, -1, 0);
+  if (arena == (void *) -1) {
+    fprintf (stderr, "cannot map the code arena\n");
+    return 2;
+  }
+  arena_next = 1; /* page 0 is never handed out */
   if (mode == 1) sequential ();
   pthread_barrier_init (&start_barrier, NULL, (unsigned) nthreads);
   for (int t = 0; t < nthreads; t++) pthread_create (&th[t], NULL, thread_main, (void *) (intptr_t) t);
@@ -426,6 +557,19 @@ int main (int argc, char **argv) {
           printf ("EV %d %d %s %lld %lld\n", t, it, ph_name[p], (long long) evs[t][it][p].t0,
                   (long long) evs[t][it][p].t1);
     }
-  printf ("DONE mismatches=%d\n", mism);
+  int pviol = 0;
+  printf ("PAGESIZE %zu\n", psz);
+  for (int k = 0; k < 2; k++)
+    for (int t = 0; t < nthreads; t++)
+      for (int it = 0; it < iters; it++) {
+        carec_t *cr = &carecs[k][t][it];
+        if (cr->id == 0 || cr->nev == 0) continue;
+        printf ("CTX %d %d %d %s viol=%d events=%zu\n", cr->id, t, it, k ? "THR" : "SEQ", cr->nviol, cr->nev);
+        pviol += cr->nviol;
+        for (size_t e = 0; e < cr->nev; e++)
+          printf ("CA %d %c %c %u %u %d\n", cr->id, cr->ev[e].kind, cr->ev[e].sub, cr->ev[e].a, cr->ev[e].b,
+                  cr->ev[e].bad);
+      }
+  printf ("DONE mismatches=%d pageviol=%d\n", mism, pviol);
   return 0;
 }
